@@ -141,6 +141,42 @@ def main_repeat_oracle(rng):
     return None
 
 
+def stdin_repeat_oracle():
+    """Input an earlier run read but did not consume must not reach the next run on the same machine."""
+    import io
+    from hera.data import Settings
+    from hera.loader import load_program
+    from hera.vm import VirtualMachine
+    from vmstate import captured
+    text = ("#include <Tiger-stdlib-reg-data.hera>\nCBON()\nMOVE(R12, SP)\nCALL(R12, getchar_ord)\nMOVE(R5, R1)\n"
+            "HALT()\n#include <Tiger-stdlib-reg.hera>\n")
+
+    def run(vm, prog, stdin):
+        old = sys.stdin
+        sys.stdin = io.StringIO(stdin)
+        try:
+            with captured():
+                vm.run(prog)
+        finally:
+            sys.stdin = old
+        return vm.registers[5]
+    try:
+        st = Settings(color=False)
+        with captured():
+            prog = load_program(text, st)
+        fresh = run(VirtualMachine(st), prog, "abc\n")
+        vm = VirtualMachine(st)
+        first = run(vm, prog, "xyz\n")
+        second = run(vm, prog, "abc\n")
+    except BaseException as e:  # noqa
+        return "the stdin program could not be run: %s" % type(e).__name__
+    if second != fresh:
+        return ("a program that reads one character, run after a run that left input unread on the same machine, reads "
+                "%r; on a fresh machine it reads %r (first run read %r)" % (chr(second) if 0 < second < 128 else second,
+                                                                          chr(fresh) if 0 < fresh < 128 else fresh, chr(first) if 0 < first < 128 else first))
+    return None
+
+
 def correspondence(ctx, model_available=True):
     quick = ctx.tier == "quick"
     rng = ctx.rng
@@ -175,6 +211,9 @@ def correspondence(ctx, model_available=True):
             spec_failures.append({"what": bad, "case": rc.case_json({"prog": prog, "st": st}), "other": other})
         nontrivial.add(repr(prog))
     bad = main_repeat_oracle(rng)
+    if bad:
+        spec_failures.append({"what": bad})
+    bad = stdin_repeat_oracle()
     if bad:
         spec_failures.append({"what": bad})
     return {
